@@ -423,7 +423,9 @@ def run(ctx):
                   witness=None if r is None else {'blocks': r[0], 'reaches': r[1].get('src')})
     # runner side: Abort -> ClearJobTokens releases every active edge; Cleanup calls Abort;
     # the destructor calls Cleanup
-    cjt = prog.fn('RealCommandRunner::ClearJobTokens')
+    # (the release loop lives in ClearJobTokens(), or directly in Abort() when that helper was merged into its only caller)
+    cjt_l = prog.by_name.get('RealCommandRunner::ClearJobTokens') or []
+    cjt = cjt_l[0] if cjt_l else prog.fn('RealCommandRunner::Abort')
     rels = [x for x in cjt.events('call') if is_release(x)]
     from rules import origins
     from model import vars_in
@@ -443,9 +445,20 @@ def run(ctx):
     ok = bool(clr_) and bool(rel_) and all(any(ab.dominates_ev(c, r_) for c in clr_) for r_ in rel_)
     ctx.check('C06.R2', ok, ab.name, 'Abort:tokens-returned-before-commands-stopped', ab.loc,
               'Abort() stops the subprocesses (SubprocessSet::Clear) before it returns the tokens of the active edges')
-    for tgt, what in ((clr_, 'stops the subprocesses'), (rel_, 'returns the tokens')):
-        r_ = ab.find_path(None, lambda x: x['k'] == 'ret' or x.get('k') == 'exit', from_succ=ab.entry, is_blocker=lambda x: any(x is y for y in tgt))
-        r2_ = _exit_reached_without(ab, tgt) if r_ is None else r_
+    # "returns the tokens" on a path = the helper is called, or the loop over all active edges whose body releases is entered
+    # (with a jobserver configured; the loop may of course run zero times)
+    loop_hdr_events = []
+    for bid_, b_ in ab.blocks.items():
+        t_ = b_.get('term')
+        if t_ and t_['kind'] in ('range', 'for', 'while') and len(b_['succ']) == 2 and \
+                any(is_release(x) for bb in ab.reachable_from(b_['succ'][0]) | {b_['succ'][0]} for x in ab.blocks[bb]['ev']) and \
+                bid_ in ab.reachable_from(b_['succ'][0]):
+            loop_hdr_events += [x for x in b_['ev']]
+    rel_paths = [x for x in rel_ if x.get('name') == 'RealCommandRunner::ClearJobTokens'] + loop_hdr_events
+    for tgt, what in ((clr_, 'stops the subprocesses'), (rel_paths, 'returns the tokens')):
+        r_ = ab.find_path(None, lambda x: x['k'] == 'ret' or x.get('k') == 'exit', from_succ=ab.entry, is_blocker=lambda x: any(x is y for y in tgt),
+                          edge_ok=jobserver_absent_edge(ab))
+        r2_ = _exit_reached_without(ab, tgt, jobserver_absent_edge(ab)) if r_ is None else r_
         ctx.check('C06.R2', bool(tgt) and r_ is None and r2_ is None, ab.name, 'Abort:path-skips:%s' % what.split()[0], ab.loc, 'every path of Abort() %s' % what)
     gae = prog.fn('RealCommandRunner::GetActiveEdges')
     ok = any(mentions_field(x.get('args'), 'RealCommandRunner::subproc_to_edge_') or
@@ -880,7 +893,7 @@ def _only_def_is_call(f, d, callee):
     return bool(defs) and all(mentions_call(e.get('r') if e['k'] == 'asg' else e.get('init'), callee) for e in defs)
 
 
-def _exit_reached_without(f, blockers):
+def _exit_reached_without(f, blockers, edge_ok=None):
     """A way from the entry to the exit block of f that executes none of the events (None if there is none)."""
     seen, st = set(), [f.entry]
     while st:
@@ -892,5 +905,5 @@ def _exit_reached_without(f, blockers):
             continue
         if b == f.exit:
             return [b]
-        st += [x for x in f.blocks[b]['succ'] if x is not None]
+        st += [x for i, x in enumerate(f.blocks[b]['succ']) if x is not None and (edge_ok is None or edge_ok(b, i, x))]
     return None
